@@ -1,5 +1,8 @@
 # sourced by every script: offline Go environment
 export GOFLAGS=-mod=mod GOPROXY=off GOSUMDB=off GOTOOLCHAIN=local
 export VERIF_ROOT="${VERIF_ROOT:-$(cd "$(dirname "${BASH_SOURCE[0]}")/.." && pwd)}"
-export VERIF_BUILD="$VERIF_ROOT/.build"
+# VERIF_REPO: the reduction checkout the harness is built against (default /repo;
+# a scratch worktree while developing or testing seeded changes).
+export VERIF_REPO="${VERIF_REPO:-/repo}"
+export VERIF_BUILD="${VERIF_BUILD:-$VERIF_ROOT/.build}"
 export GO=go1.26
